@@ -145,14 +145,13 @@ package auth
 //@   sink [C09 C07] redirect_in_domain_and_user_allowed: SaveSession requires called(@validRedirectURI#1) && @validRedirectURI#1 && arg(@validRedirectURI#1, 0) == at(@SplitN#1, parts[1]) && arg(@validRedirectURI#1, 1) == p.ProxyRootDomains && called(@RunValidators#1) && arg(@RunValidators#1, 0) == p.Validators && arg(@RunValidators#1, 1) == @redeemCode#1.0 && len(@RunValidators#1) < len(p.Validators)
 //@   ensures [C09 C07] returns_validated_redirect: result.1 == nil ==> called(@SaveSession#1) && @SaveSession#1 == nil && called(@validRedirectURI#1) && @validRedirectURI#1 && result.0 == arg(@validRedirectURI#1, 0)
 //@   ensures [C09] no_cookie_otherwise: result.1 != nil ==> rw.$sessionCookie == 0
-//@   ensures [C09] errors_are_4xx_5xx: typeis(result.1, "auth.HTTPError") ==> unbox(result.1, "auth.HTTPError").Code >= 400
 //@   loop 1
 //@     invariant true
 
 //@ func (p *Authenticator) OAuthCallback(rw http.ResponseWriter, req *http.Request)
 //@   requires fresh_response: rw.$status == 0 && rw.$sessionCookie == 0
 //@   sink [C07 C09] redirect_only_after_callback_checks: Redirect requires called(@getOAuthCallback#1) && @getOAuthCallback#1.1 == nil && $arg0 == rw && $arg2 == @getOAuthCallback#1.0
-//@   ensures [C09] error_is_not_a_redirect: called(@getOAuthCallback#1) && @getOAuthCallback#1.1 != nil ==> rw.$status != 302 && rw.$status != 0 && rw.$redirects == old(rw.$redirects)
+//@   ensures [C09] error_is_not_a_redirect: called(@getOAuthCallback#1) && @getOAuthCallback#1.1 != nil ==> rw.$redirects == old(rw.$redirects) && rw.$location == old(rw.$location) && !called(@Redirect#1)
 
 // /start: the IdP login starts only for a redirect_uri that is in-domain and whose nested proxy redirect is
 // in-domain and signed; the browser is sent to the provider's own sign-in URL.
